@@ -290,15 +290,10 @@ func (m *Model) deleteMode(id string, opts ...resource.WriteOption) error {
 		return ErrDeleteActiveMode
 	}
 
-	msg, err := m.modes.Delete(id, opts...)
-	if err != nil {
-		return err
-	}
-	if msg == nil {
-		return ErrModeNotFound
-	}
-
-	return nil
+	// Delete reports a missing mode itself (NotFound), unless the caller passed resource.WithAllowMissing(true),
+	// in which case a missing mode is not an error.
+	_, err := m.modes.Delete(id, opts...)
+	return err
 }
 
 // UpdateMode will modify one of the modes stored in this device.
